@@ -664,7 +664,7 @@ func run(c *vf.Ctx) {
 		if res.TimedOut {
 			c.Inconclusive("concurrent child watchdog fired (" + args[0] + ")")
 		} else if res.ExitCode != 0 {
-			if res.Fatal != "" {
+			if res.Fatal != "" && !strings.HasPrefix(res.Fatal, "start:") {
 				c.Violation("concurrent/fatal", "concurrent child died: "+res.Fatal, map[string]any{"stderr": tail(res.Stderr, 4000)})
 			} else {
 				c.Inconclusive(fmt.Sprintf("concurrent child (%s) exit code %d", args[0], res.ExitCode))
